@@ -452,6 +452,10 @@ func (e *Engine) Explore(h *Harness, opt Options) *Result {
 			res.Stats.GoStmts += p.stats.GoStmts
 			res.Stats.Concretize += p.stats.Concretize
 			res.Stats.Fallbacks += p.stats.Fallbacks
+			res.Stats.RaceAccesses += p.stats.RaceAccesses
+			if p.stats.RaceShared > res.Stats.RaceShared {
+				res.Stats.RaceShared = p.stats.RaceShared
+			}
 			if len(res.SamplePCs) < 5 && p.status == "completed" && len(p.pc) > 0 {
 				res.SamplePCs = append(res.SamplePCs, p.pcString(600))
 			}
